@@ -7,11 +7,11 @@ CONSTANTS
   SizeVa = 2
   SizeCh = 1
   SizeNe = 2
+  SizeSt = 1
   ExtClass <- NoExt
   ExtEsc <- NoExt
   ExtSep <- OneSpace
 INVARIANT NoResidual
-INVARIANT HideSetsAreNames
 CONSTRAINT DumpConstraint
 VIEW ProgView
 CHECK_DEADLOCK FALSE
